@@ -1232,7 +1232,8 @@ static qtreetbl_obj_t *put_obj(qtreetbl_t *tbl, qtreetbl_obj_t *obj,
     int cmp = tbl->compare(name, namesize, obj->name, obj->namesize);
     if (cmp == 0) {  // existing key found
         void *copydata = qmemdup(data, datasize);
-        if (copydata != NULL) {
+        if (copydata != NULL || data == NULL || datasize == 0) {
+            // replace, also by an empty value (only a failed copy keeps the old)
             free(obj->data);
             obj->data = copydata;
             obj->datasize = datasize;
